@@ -315,11 +315,23 @@ func (c *Ctx) farmReqs(roots []workReq, b explore.Bounds, st *explore.Stats) {
 			rd := bufio.NewReaderSize(out, 1<<20)
 			enc := json.NewEncoder(in)
 			for pre := range jobs {
+				mu.Lock()
+				over := b.MaxExec > 0 && st.Executions+st.Pruned >= b.MaxExec
+				if over {
+					st.Capped = true
+				}
+				mu.Unlock()
+				if over {
+					continue
+				}
 				if time.Now().After(b.Deadline) {
 					mu.Lock()
 					st.Capped = true
 					mu.Unlock()
 					continue
+				}
+				if b.MaxExec > 0 {
+					pre.Bounds.MaxExec = b.MaxExec/8 + 1 // per subtree root; the global cap is enforced above
 				}
 				enc.Encode(pre)
 				line, err := rd.ReadBytes('\n')
